@@ -6,3 +6,7 @@ package verifhook
 
 // Point marks a named point in the code. It does nothing in normal builds.
 func Point(string) {}
+
+// SQLDriver returns the database/sql driver name a store is opened with. In normal builds
+// that is always the given name.
+func SQLDriver(name string) string { return name }
